@@ -51,3 +51,69 @@ func VerifC07Dispose() {
 	verifAssert("written-message-intact", written.Id == id && written.Question[0] == q && id == req.Id)
 	verifReach("done")
 }
+
+// verifServe7 sends one anonymous request through e and returns what went upstream
+// and what was written.
+func verifServe7(e *verifEnv, host string, qt, id uint16, reqKind, respKind int) (upReq, written *dns.Msg) {
+	req := &dns.Msg{}
+	req.SetQuestion(dns.Fqdn(host), qt)
+	req.Id = id
+	ri := &agd.RequestInfo{
+		FilteringGroup: &agd.FilteringGroup{FilterConfig: &filter.ConfigGroup{}},
+		Messages:       e.mw.messages,
+		RemoteIP:       netip.MustParseAddr("198.51.100.7"),
+		Host:           host,
+		QType:          qt,
+		QClass:         dns.ClassINET,
+		Proto:          agd.ProtoDNS,
+	}
+	e.flt.reqRes = verifResult(reqKind, req, ri.Messages)
+	e.flt.respRes = verifResult(respKind, req, ri.Messages)
+	e.ups.req, e.rw.resp = nil, nil
+	ctx := agd.ContextWithRequestInfo(context.Background(), ri)
+	ctx = dnsserver.ContextWithRequestInfo(ctx, &dnsserver.RequestInfo{StartTime: time.Unix(1700000000, 0)})
+	err := e.mw.Wrap(e.ups).ServeDNS(ctx, e.rw, req)
+	verifAssert("served-without-error", err == nil)
+	if e.ups.req != nil {
+		upReq = e.ups.req.Copy()
+	}
+	if e.rw.resp != nil {
+		written = e.rw.resp.Copy()
+	}
+	return upReq, written
+}
+
+// VerifC07RecycledContext: a request is resolved and answered the same whether the
+// middleware's pooled filtering context, filter request and filter response are
+// fresh or were last used by another client's request with any verdicts (blocked,
+// rewritten to another name, rewritten answer): what goes upstream is this request's
+// own question and the answer holds its own records.
+//
+//verif:harness name=H07f-recycled-context tier=quick,thorough bounds="two consecutive requests through one mainmw whose pools hand released objects back: first with request verdict from 5 kinds and response verdict from 3 kinds, second likewise; the second is compared with the same request through a fresh middleware" reach=done,after-rewrite maxpaths=100000
+//verif:assume filter storage, upstream, billing, query log and rule statistics are recorder stubs; sync.Pool order
+func VerifC07RecycledContext() {
+	verifPoolMode(1)
+	used, fresh := verifNewEnv(), verifNewEnv()
+	k1, r1 := verifChoice(5), verifChoice(3)
+	_, _ = verifServe7(used, "first.example", dns.TypeA, 0x1111, k1, r1)
+	if k1 == 4 {
+		verifReach("after-rewrite")
+	}
+	k2, r2 := verifChoice(5), verifChoice(3)
+	uu, wu := verifServe7(used, "example.org", dns.TypeA, 0x2222, k2, r2)
+	uf, wf := verifServe7(fresh, "example.org", dns.TypeA, 0x2222, k2, r2)
+
+	verifAssert("same-upstream-use", (uu == nil) == (uf == nil))
+	if uu != nil && uf != nil {
+		verifAssert("own-question-goes-upstream", len(uu.Question) == 1 && len(uf.Question) == 1 && uu.Question[0] == uf.Question[0])
+	}
+	verifAssert("answered-by-both", wu != nil && wf != nil)
+	if wu != nil && wf != nil {
+		verifAssert("same-answer-header", wu.Id == wf.Id && wu.Rcode == wf.Rcode && len(wu.Question) == 1 && len(wf.Question) == 1 && wu.Question[0] == wf.Question[0])
+		verifAssert("same-answer-record-counts", len(wu.Answer) == len(wf.Answer) && len(wu.Ns) == len(wf.Ns))
+		for i := 0; i < len(wu.Answer) && i < len(wf.Answer); i++ {
+			verifAssert("same-answer-records", wu.Answer[i].String() == wf.Answer[i].String())
+		}
+	}
+	verifReach("done")
+}
